@@ -85,7 +85,7 @@ impl Case14 {
         let mut model = Model::new(refs, &gd, &cf);
         let nl = self.specs.len();
         let mut info = RunInfo { why: None, truncated_at: None, nonzero_steps: 0, zero_sum_grads: 0, batch_sizes: vec![] };
-        // index (in units of whole-model snapshots) of the snapshot taken by each iteration's update
+        // position in the spy log at which each iteration's update call starts
         let mut snap_of_iter: Vec<usize> = vec![];
         // one entry per iteration: (x, target, loss)
         let mut batches: Vec<(T, T, f64)> = vec![];
@@ -119,7 +119,7 @@ impl Case14 {
                 Ok(l) => l as f64,
                 Err(p) => return e("unexpected-panic", format!("{}: backward panicked: {}", desc(it), p)),
             };
-            snap_of_iter.push(log.borrow().len() / nl.max(1));
+            snap_of_iter.push(log.borrow().len());
             if let Err(p) = guarded(|| model.update()) {
                 return e("unexpected-panic", format!("{}: update panicked: {}", desc(it), p));
             }
@@ -133,17 +133,31 @@ impl Case14 {
             info.batch_sizes.push(spec.batch);
         }
         // a final gradient-free update exposes the last parameters
-        snap_of_iter.push(log.borrow().len() / nl.max(1));
+        snap_of_iter.push(log.borrow().len());
         if let Err(p) = guarded(|| model.update()) {
             return e("unexpected-panic", format!("final update panicked: {}", p));
         }
         drop(model);
         let lg = log.borrow();
-        let extra = self.iters.iter().filter(|i| i.probe_forward_after).count();
-        if lg.len() != nl * (self.iters.len() + 1 + extra) {
-            return e("internal", format!("expected {} parameter snapshots, saw {}", nl * (self.iters.len() + 1 + extra), lg.len()));
+        // the snapshot of an update call = for every layer the FIRST entry it logged after the call started (an
+        // implementation may ask the layers for their parameters more than once per update)
+        let mut snaps: Vec<Vec<&Vec<ParamSnap>>> = vec![];
+        for &start in &snap_of_iter {
+            let mut per_layer: Vec<Option<&Vec<ParamSnap>>> = vec![None; nl];
+            for (idx, sn) in lg.iter().skip(start) {
+                if per_layer[*idx].is_none() {
+                    per_layer[*idx] = Some(sn);
+                }
+                if per_layer.iter().all(|x| x.is_some()) {
+                    break;
+                }
+            }
+            if per_layer.iter().any(|x| x.is_none()) {
+                return Err(("discard".into(), "an update call did not ask every layer for its parameters".into()));
+            }
+            snaps.push(per_layer.into_iter().map(|x| x.unwrap()).collect());
         }
-        let snap_at = |it: usize| -> Vec<&Vec<ParamSnap>> { (0..nl).map(|l| &lg[snap_of_iter[it] * nl + l].1).collect() };
+        let snap_at = |it: usize| -> Vec<&Vec<ParamSnap>> { snaps[it].clone() };
         for it in 0..self.iters.len() {
             let cur = snap_at(it);
             let next = snap_at(it + 1);
